@@ -310,3 +310,10 @@ UNITS += [adapt_classes_any_unit("C14"), is_subclass_spec_unit("C14"), parse_arg
 
 from contracts.discard_walk import discard_walk_unit  # noqa: E402
 UNITS.append(discard_walk_unit("C14"))
+
+
+from contracts.signature_units import add_subclass_arguments_unit  # noqa: E402
+UNITS.append(add_subclass_arguments_unit("C14"))
+
+from contracts.any_units import normalize_default_unit, typehint_instantiate_unit  # noqa: E402
+UNITS += [typehint_instantiate_unit("C14"), normalize_default_unit("C14")]
